@@ -30,6 +30,8 @@ package main
 
 import (
 	"bytes"
+	"context"
+	"crypto/tls"
 	"fmt"
 	"net"
 	"os"
@@ -42,6 +44,8 @@ import (
 
 	"github.com/IrineSistiana/mosproxy/app/router"
 	"github.com/IrineSistiana/mosproxy/verifharness/hx"
+	"github.com/quic-go/quic-go"
+	"gopkg.in/yaml.v3"
 )
 
 func init() {
@@ -88,9 +92,11 @@ func runStartCfgParent(id string, parts []string) string {
 }
 
 type scItem struct {
-	comp  string // m u d r c s
-	kind  string
-	fault string
+	comp   string // m u d r c s
+	kind   string
+	fault  string
+	rp     bool   // +rp: socket.so_reuseport configured explicitly
+	client string // @idle @mid @hs: a client in that state is connected to the endpoint when the router is closed
 }
 
 func scParse(s string) ([]scItem, error) {
@@ -100,13 +106,16 @@ func scParse(s string) ([]scItem, error) {
 			continue
 		}
 		body, fault, _ := strings.Cut(it, "!")
+		body, client, _ := strings.Cut(body, "@")
+		rp := strings.HasSuffix(body, "+rp")
+		body = strings.TrimSuffix(body, "+rp")
 		comp, kind, _ := strings.Cut(body, ":")
 		switch comp {
 		case "m", "u", "d", "r", "c", "s":
 		default:
 			return nil, fmt.Errorf("unknown item %q", it)
 		}
-		out = append(out, scItem{comp, kind, fault})
+		out = append(out, scItem{comp, kind, fault, rp, client})
 	}
 	return out, nil
 }
@@ -199,8 +208,40 @@ func scTlsFault(t *router.TlsConfig, fault string, f *scFiles, server bool) {
 }
 
 // build the configuration; held = sockets the harness binds to provoke "address in use"
-func scBuild(items []scItem, f *scFiles, intended map[int]bool, hold func(port int, udp bool) error) (*router.Config, error) {
+// an endpoint of the configuration under test that a client is to be attached to
+type scEndpoint struct {
+	comp, kind, client, addr string
+}
+
+type scBuilt struct {
+	cfg   *router.Config
+	first []*router.Config // "another instance of the router": one configuration per port it has to hold
+	eps   []scEndpoint
+}
+
+func scServerConfig(it scItem, idx int, listen string, f *scFiles) router.ServerConfig {
+	proto := it.kind
+	sc := router.ServerConfig{Tag: fmt.Sprintf("s%d", idx), Listen: listen}
+	switch it.kind {
+	case "udp1":
+		proto = "udp"
+		sc.Udp.Threads = 1
+	case "udp2":
+		proto = "udp"
+		sc.Udp.Threads = 2
+	}
+	sc.Protocol = proto
+	sc.Socket.SO_REUSEPORT = it.rp
+	if proto == "tls" || proto == "https" || proto == "quic" {
+		scTlsFault(&sc.Tls, "", f, true)
+	}
+	return sc
+}
+
+func scBuild(items []scItem, f *scFiles, intended map[int]bool, hold func(port int, udp bool) error) (*scBuilt, error) {
+	b := &scBuilt{}
 	cfg := &router.Config{}
+	b.cfg = cfg
 	nu, nd := 0, 0
 	upPort := hx.FreePort()
 	for _, it := range items {
@@ -208,11 +249,20 @@ func scBuild(items []scItem, f *scFiles, intended map[int]bool, hold func(port i
 		case "m":
 			p := hx.FreePort()
 			cfg.Metrics.Addr = fmt.Sprintf("127.0.0.1:%d", p)
-			if it.fault == "inuse" {
+			switch it.fault {
+			case "inuse":
 				intended[p] = true
 				if err := hold(p, false); err != nil {
 					return nil, err
 				}
+			case "rtr":
+				intended[p] = true
+				c1 := &router.Config{}
+				c1.Metrics.Addr = cfg.Metrics.Addr
+				b.first = append(b.first, c1)
+			}
+			if it.client != "" {
+				b.eps = append(b.eps, scEndpoint{"m", "", it.client, cfg.Metrics.Addr})
 			}
 		case "u":
 			uc := router.UpstreamConfig{Tag: fmt.Sprintf("up%d", nu), Addr: scUpAddr(it.kind, upPort)}
@@ -280,12 +330,9 @@ func scBuild(items []scItem, f *scFiles, intended map[int]bool, hold func(port i
 			}
 		case "s":
 			p := hx.FreePort()
-			sc := router.ServerConfig{Tag: fmt.Sprintf("s%d", len(cfg.Servers)), Protocol: it.kind, Listen: fmt.Sprintf("127.0.0.1:%d", p)}
-			isTls := it.kind == "tls" || it.kind == "https" || it.kind == "quic"
-			udp := it.kind == "udp" || it.kind == "quic"
-			if isTls {
-				scTlsFault(&sc.Tls, "", f, true)
-			}
+			sc := scServerConfig(it, len(cfg.Servers), fmt.Sprintf("127.0.0.1:%d", p), f)
+			isTls := sc.Protocol == "tls" || sc.Protocol == "https" || sc.Protocol == "quic"
+			udp := sc.Protocol == "udp" || sc.Protocol == "quic"
 			switch it.fault {
 			case "":
 			case "inuse":
@@ -293,6 +340,12 @@ func scBuild(items []scItem, f *scFiles, intended map[int]bool, hold func(port i
 				if err := hold(p, udp); err != nil {
 					return nil, err
 				}
+			case "rtr":
+				// the port is held by ANOTHER INSTANCE of the router with the same listener
+				intended[p] = true
+				c1 := &router.Config{}
+				c1.Servers = []router.ServerConfig{scServerConfig(it, 0, sc.Listen, f)}
+				b.first = append(b.first, c1)
 			case "proto":
 				sc.Protocol = "bogus"
 			case "badaddr":
@@ -300,10 +353,91 @@ func scBuild(items []scItem, f *scFiles, intended map[int]bool, hold func(port i
 			default:
 				scTlsFault(&sc.Tls, it.fault, f, isTls)
 			}
+			if it.client != "" {
+				b.eps = append(b.eps, scEndpoint{"s", sc.Protocol, it.client, sc.Listen})
+			}
 			cfg.Servers = append(cfg.Servers, sc)
 		}
 	}
-	return cfg, nil
+	return b, nil
+}
+
+// attach a client in the given state to an endpoint; returns a closer for the client's side
+func scAttach(ep scEndpoint) (func(), error) {
+	partialFrame := []byte{0x00, 0x64, 1, 2, 3, 4, 5, 6, 7, 8, 9, 10} // announces 100 octets, delivers 10
+	httpReq := func(path string) []byte {
+		// a request whose announced body never arrives
+		return []byte("POST " + path + " HTTP/1.1\r\nHost: verif\r\nContent-Type: application/dns-message\r\nContent-Length: 16\r\n\r\n")
+	}
+	tcpDial := func() (net.Conn, error) { return net.DialTimeout("tcp", ep.addr, 2*time.Second) }
+	tlsDial := func(protos []string) (net.Conn, error) {
+		d := &net.Dialer{Timeout: 2 * time.Second}
+		return tls.DialWithDialer(d, "tcp", ep.addr, &tls.Config{InsecureSkipVerify: true, NextProtos: protos})
+	}
+	kind := ep.kind
+	if ep.comp == "m" {
+		kind = "metrics"
+	}
+	switch kind {
+	case "metrics", "http", "fasthttp", "tcp", "gnet":
+		c, err := tcpDial()
+		if err != nil {
+			return nil, err
+		}
+		if ep.client == "mid" {
+			switch kind {
+			case "metrics":
+				c.Write([]byte("GET /metrics HTTP/1.1\r\nHost: verif\r\nContent-Length: 16\r\n\r\n"))
+			case "http", "fasthttp":
+				c.Write(httpReq("/dns-query"))
+			default:
+				c.Write(partialFrame)
+			}
+		}
+		return func() { c.Close() }, nil
+	case "tls", "https":
+		if ep.client == "mid" {
+			protos := []string(nil)
+			if kind == "https" {
+				protos = []string{"http/1.1"}
+			}
+			c, err := tlsDial(protos)
+			if err != nil {
+				return nil, err
+			}
+			if kind == "https" {
+				c.Write(httpReq("/dns-query"))
+			} else {
+				c.Write(partialFrame)
+			}
+			return func() { c.Close() }, nil
+		}
+		c, err := tcpDial()
+		if err != nil {
+			return nil, err
+		}
+		if ep.client == "hs" {
+			c.Write([]byte{0x16, 0x03, 0x01}) // the first 3 octets of a TLS record header
+		}
+		return func() { c.Close() }, nil
+	case "quic":
+		ctx, cancel := context.WithTimeout(context.Background(), 3*time.Second)
+		defer cancel()
+		qc, err := quic.DialAddr(ctx, ep.addr, &tls.Config{InsecureSkipVerify: true, NextProtos: []string{"doq"}}, nil)
+		if err != nil {
+			return nil, err
+		}
+		if ep.client == "mid" {
+			st, err := qc.OpenStreamSync(ctx)
+			if err != nil {
+				qc.CloseWithError(0, "")
+				return nil, err
+			}
+			st.Write(partialFrame)
+		}
+		return func() { qc.CloseWithError(0, "") }, nil
+	}
+	return nil, fmt.Errorf("no client for endpoint kind %q", kind)
 }
 
 func scFds() (sock, other int) {
@@ -395,12 +529,20 @@ func runStartCfgChild(id string, parts []string) string {
 	defer dropHeld()
 
 	if f["mode"] == "bin" {
-		cfg, err := scBuild(items, files, intended, hold)
+		b, err := scBuild(items, files, intended, hold)
 		if err != nil {
 			return "HARNESS-ERROR " + err.Error()
 		}
+		// "another instance": the real binary, running, with the listener that holds the port
+		for i, c1 := range b.first {
+			stop, err := scStartFirstBin(dir, i, c1)
+			if err != nil {
+				return "HARNESS-ERROR first instance: " + err.Error()
+			}
+			defer stop()
+		}
 		coll := false
-		r := startupBin(dir, cfg, true, nil, intended, &coll)
+		r := startupBin(dir, b.cfg, true, nil, intended, &coll)
 		if coll {
 			return "port collision"
 		}
@@ -420,9 +562,30 @@ func runStartCfgChild(id string, parts []string) string {
 			delete(intended, k)
 		}
 		dropHeld()
-		cfg, err := scBuild(items, files, intended, hold)
+		b, err := scBuild(items, files, intended, hold)
 		if err != nil {
 			return "HARNESS-ERROR " + err.Error()
+		}
+		cfg := b.cfg
+		// "another instance of the router" holding a port: started first, closed after the run under test
+		var firsts []*router.VerifRouter
+		closeFirsts := func() {
+			for _, r1 := range firsts {
+				r1.Close()
+			}
+			firsts = nil
+		}
+		defer closeFirsts()
+		for _, c1 := range b.first {
+			r1, err := router.VerifRun(c1)
+			if err != nil {
+				if strings.Contains(err.Error(), "address already in use") {
+					collision = true
+					return "ERR"
+				}
+				return "HARNESS-ERROR first instance: " + err.Error()
+			}
+			firsts = append(firsts, r1)
 		}
 		type out struct {
 			r   *router.VerifRouter
@@ -451,12 +614,38 @@ func runStartCfgChild(id string, parts []string) string {
 			return "ERR"
 		}
 		time.Sleep(20 * time.Millisecond)
+		// clients that are connected / in the middle of a handshake / of a request when the router is closed
+		var detach []func()
+		for _, ep := range b.eps {
+			d, err := scAttach(ep)
+			if err != nil {
+				for _, x := range detach {
+					x()
+				}
+				o.r.Close()
+				return "HARNESS-ERROR client on " + ep.comp + ":" + ep.kind + ": " + err.Error()
+			}
+			detach = append(detach, d)
+		}
+		if len(b.eps) > 0 {
+			time.Sleep(80 * time.Millisecond)
+		}
 		done := make(chan struct{})
+		t0 := time.Now()
 		go func() { o.r.Close(); close(done) }()
+		if v := os.Getenv("VERIF_C18_CLOSEBOUND"); v != "" {
+			scCloseBound, _ = time.ParseDuration(v)
+		}
 		select {
 		case <-done:
-		case <-time.After(5 * time.Second):
-			return "HANG router close did not return within 5s"
+			if os.Getenv("VERIF_C18_STACKS") != "" {
+				fmt.Fprintln(os.Stderr, "close took", time.Since(t0))
+			}
+		case <-time.After(scCloseBound):
+			return fmt.Sprintf("HANG router close did not return within %v", scCloseBound)
+		}
+		for _, x := range detach {
+			x()
 		}
 		return "OK"
 	}
@@ -528,6 +717,50 @@ func runStartCfgChild(id string, parts []string) string {
 		}
 		return fmt.Sprintf("res=%s sock=%d fd=%d gor=%d", res, per(s-bs), per(o-bo), gor)
 	})
+}
+
+// router.close must return promptly whatever its peers do
+var scCloseBound = 3 * time.Second
+
+// start the real binary with cfg and wait until it is up; the returned function kills it
+func scStartFirstBin(dir string, i int, cfg *router.Config) (func(), error) {
+	suBinOnce.Do(func() {
+		suBinPath = os.Getenv("VERIF_MOSPROXY")
+		if suBinPath == "" {
+			suBinPath = filepath.Join(filepath.Dir(os.Args[0]), "mosproxy")
+		}
+	})
+	b, err := yaml.Marshal(cfg)
+	if err != nil {
+		return nil, err
+	}
+	cp := filepath.Join(dir, fmt.Sprintf("first%d.yaml", i))
+	if err := os.WriteFile(cp, b, 0o644); err != nil {
+		return nil, err
+	}
+	cmd := exec.Command(suBinPath, "router", "-c", cp)
+	var errb bytes.Buffer
+	cmd.Stderr = &errb
+	cmd.Stdout = &errb
+	if err := cmd.Start(); err != nil {
+		return nil, err
+	}
+	exited := make(chan struct{})
+	go func() { cmd.Wait(); close(exited) }()
+	stop := func() { cmd.Process.Kill(); <-exited }
+	for j := 0; j < 200; j++ {
+		select {
+		case <-exited:
+			return nil, fmt.Errorf("exited: %s", errb.String())
+		default:
+		}
+		if strings.Contains(errb.String(), "up and running") {
+			return stop, nil
+		}
+		time.Sleep(25 * time.Millisecond)
+	}
+	stop()
+	return nil, fmt.Errorf("did not come up")
 }
 
 func guardStartCfg(fn func() string) (res string) {
